@@ -78,9 +78,18 @@ impl Mirror {
     pub fn new() -> Mirror {
         Mirror { ids: HashMap::new() }
     }
+    // Pre-assign identities to known cells (address of the cell -> id); other cells get ids from
+    // `len` upwards, so callers should use ids below the number of pre-assigned cells + 1000.
+    pub fn with_ids(known: &[(usize, u32)]) -> Mirror {
+        let mut ids = HashMap::new();
+        for (addr, id) in known {
+            ids.insert(*addr, *id);
+        }
+        Mirror { ids }
+    }
     pub fn hole_id<'a>(&mut self, cell: &Rc<RefCell<Option<Term<'a>>>>) -> u32 {
         let addr = Rc::as_ptr(cell) as *const u8 as usize;
-        let n = self.ids.len() as u32;
+        let n = self.ids.values().copied().max().map_or(0, |m| m + 1);
         *self.ids.entry(addr).or_insert(n)
     }
     pub fn go<'a>(&mut self, t: &Term<'a>) -> E {
